@@ -348,5 +348,34 @@ func checkC20(cc Case, r *simrt.Result) *Outcome {
 }
 
 func init() {
-	Props["C20"] = &Scenario{Gen: genC20, Check: checkC20, MaxSteps: 400000}
+	Props["C20"] = &Scenario{Gen: genC20, Check: checkC20, MaxSteps: 400000, Once: manyFallbackGenerators}
+}
+
+// manyFallbackGenerators rides along once per check, without schedule: a program that creates a great many
+// fallback generators (every instance created after the partitions of the default generator are used up gets
+// one) - two million, four in the thorough tier - and draws the first identifier from each. All of them have
+// to be distinct. Plain generated input plus comparison, not simulation.
+func manyFallbackGenerators(tier string) *Outcome {
+	o := &Outcome{}
+	n := 2_000_000
+	if tier == "thorough" {
+		n = 4_000_000
+	}
+	seen := make(map[string]int32, n)
+	var vl vlist
+	for i := 0; i < n && len(vl.v) == 0; i++ {
+		g := id.NewFallbackGenerator()
+		for k := 0; k < 1; k++ {
+			s := g.New().String()
+			if prev, dup := seen[s]; dup {
+				vl.add("C20/collision", "identifier %s issued twice: by fallback generator #%d and by fallback generator #%d of one program run (%d generators created)", s, prev+1, i+1, n)
+				break
+			}
+			seen[s] = int32(i)
+		}
+	}
+	o.Viol = vl.v
+	probe(o, "millions-of-fallback-generators-in-one-program", true)
+	o.Sample = map[string]any{"fallback_generators": n, "ids_compared": len(seen)}
+	return o
 }
